@@ -1,12 +1,15 @@
 #!/usr/bin/env python3
 """C13 -- the parser accepts exactly GraphQL documents and builds the tree they denote.
-M: Grammar.tla (push-down generator: brackets/tree balanced, fold = step machine, no deviation used by the ideal grammar)
-   for executable and type-system documents; StringLitP.tla lexer automaton (+ BlockString value properties).
-G: (1) every valid token sequence up to L tokens (executable, type system); (2) near misses: every token sequence over a small
-   alphabet up to L' and seeded single-edit mutants of the valid sequences; (3) every code-point-class text up to N as string /
-   block-string / number / name run inside a list value.
+M: Grammar.tla (push-down generator/recogniser: brackets and tree balanced, fold = step machine, Need is a lower bound, the ideal
+   grammar uses no deviation, today's grammar differs only where a deviation is recorded) for executable and type-system documents
+   and sub-grammars; StringLitP.tla lexer automaton (conservation, well-formed tokens, BlockString value properties).
+G: (1) every valid token sequence of the runs RunsQuick / RunsThorough (whole documents and wrapped sub-grammars);
+   (2) accepts exactly: every token sequence up to L' over small alphabets, seeded single-edit mutants of the valid sequences,
+   nesting around the documented limit, witnesses of the known findings; (3) every code-point-class text of the lexer runs
+   (quoted strings, number / name runs, block-string bodies) inside a list value.
 harness: renders with seeded ignored tokens and name spellings, runs parse_query / parse_schema, logs accept/reject + flat tree.
-V: GrammarTrace.tla recomputes membership and the denoted tree with the recogniser / lexer and judges every case."""
+V: GrammarTrace.tla recomputes membership and the denoted tree with the recogniser / lexer and judges every case.
+./check C13 --replay replays/C13/n.json re-runs one case and prints observation, expectation and verdict."""
 import itertools, os, random, sys
 sys.path.insert(0, os.path.join(os.path.dirname(os.path.abspath(__file__)), "..", "lib"))
 import vlib
@@ -108,13 +111,12 @@ def tok_of_label(lab):
     return [k, s]
 
 
-def gen_docs(c, runs):
+def gen_docs(c, runs, workers=8):
     """One TLC run of the generator for all runs of the tier: {run id: [token sequence]}."""
     cfg = c.path("Gen_Grammar.cfg")
     with open(cfg, "w") as f:
         f.write("CONSTANT Runs <- %s\nCONSTANT LRuns = {}\nINIT GInit\nNEXT GNext\nINVARIANT GEmit\n" % runs)
-    g = vlib.run_tlc("lex/Grammar.tla", cfg, workers=8, timeout=6000, keep_lines=50, xmx="8g")
-    c.add_tlc("G Grammar %s" % runs, g)
+    g = vlib.run_tlc("lex/Grammar.tla", cfg, workers=workers, timeout=6000, keep_lines=50, xmx="8g", metadir=c.path("tlc-G"))
     docs = {}
     for t in g.tagged("REPLAY"):
         docs.setdefault(t[1], set()).add(tuple(t[2].split(" ")))
@@ -124,23 +126,22 @@ def gen_docs(c, runs):
         if not ds:
             raise vlib.ToolError("generator run %s produced no document" % rid)
         out[rid] = [[tok_of_label(x) for x in d] for d in ds]
-    return out
+    return out, g
 
 
-def gen_texts(c, runs):
+def gen_texts(c, runs, workers=8):
     """One TLC run of the lexer automaton (invariants on = mode M, LEmit = mode G): {run id: [class text]}."""
     cfg = c.path("Gen_Lexer.cfg")
     with open(cfg, "w") as f:
         f.write("CONSTANT LRuns <- %s\nINIT LInit\nNEXT LNext\nINVARIANT LEmit\nINVARIANT LTypeOK\nINVARIANT Conservation\n"
                 "INVARIANT TokensWellFormed\n" % runs)
-    g = vlib.run_tlc("lex/StringLitP.tla", cfg, workers=8, timeout=6000, keep_lines=50, xmx="8g")
+    g = vlib.run_tlc("lex/StringLitP.tla", cfg, workers=workers, timeout=6000, keep_lines=50, xmx="8g", metadir=c.path("tlc-L"))
     if g.invariant_violated:
         raise vlib.ToolError("design-level failure in StringLitP.tla: %s" % g.invariant_violated)
-    c.add_tlc("M+G StringLitP %s" % runs, g)
     texts = {}
     for t in g.tagged("REPLAY"):
         texts.setdefault(t[1], set()).add(tuple(t[2].split(" ")) if t[2] else ())
-    return {k: sorted(v, key=lambda d: (len(d), d)) for k, v in texts.items()}
+    return {k: sorted(v, key=lambda d: (len(d), d)) for k, v in texts.items()}, g
 
 
 def mutants(doc, pool, rng, n):
@@ -195,21 +196,29 @@ def body(c):
         replay(c)
     q = c.quick
     rng = random.Random(c.seed)
-    # ---------------- mode M ----------------
-    m = vlib.run_tlc("lex/Grammar.tla", "lex/MC_Grammar.cfg", workers=8, timeout=1800, xmx="8g")
-    if m.invariant_violated:
-        raise vlib.ToolError("design-level failure in Grammar.tla: " + str(m.invariant_violated))
-    if m.distinct < 1000:
-        raise vlib.ToolError("vacuity: mode M of Grammar.tla explored only %d states" % m.distinct)
+    # ---------------- modes M and G: three independent TLC runs side by side (8 workers in total) ----------------
+    def mode_m():
+        m = vlib.run_tlc("lex/Grammar.tla", "lex/MC_Grammar.cfg", workers=2, timeout=1800, xmx="4g", metadir=c.path("tlc-M"))
+        if m.invariant_violated:
+            raise vlib.ToolError("design-level failure in Grammar.tla: " + str(m.invariant_violated))
+        if m.distinct < 1000:
+            raise vlib.ToolError("vacuity: mode M of Grammar.tla explored only %d states" % m.distinct)
+        return m
+
+    from concurrent.futures import ThreadPoolExecutor
+    with ThreadPoolExecutor(3) as ex:
+        fm = ex.submit(mode_m)
+        fg = ex.submit(gen_docs, c, "RunsQuick" if q else "RunsThorough", 4)
+        fl = ex.submit(gen_texts, c, "LRunsQuick" if q else "LRunsThorough", 2)
+        m, (docs, g), (texts, gl) = fm.result(), fg.result(), fl.result()
     c.add_tlc("M Grammar (RunsM: executable <=6, type system <=5, variable definitions <=8, values <=4 tokens)", m)
+    c.add_tlc("G Grammar %s" % ("RunsQuick" if q else "RunsThorough"), g)
+    c.add_tlc("M+G StringLitP %s" % ("LRunsQuick" if q else "LRunsThorough"), gl)
     if not q:
         m = vlib.run_tlc("lex/StringLitP.tla", "lex/MC_StringLitP.cfg", workers=8, timeout=1800, xmx="8g")
         if m.invariant_violated:
             raise vlib.ToolError("design-level failure in StringLitP.tla: " + str(m.invariant_violated))
         c.add_tlc("M StringLitP (<=5 classes over 9)", m)
-    # ---------------- mode G ----------------
-    docs = gen_docs(c, "RunsQuick" if q else "RunsThorough")
-    texts = gen_texts(c, "LRunsQuick" if q else "LRunsThorough")
     cases = []
 
     def add(mode, sub, **kw):
